@@ -7,15 +7,16 @@ MODEL = "crates/libs/sciparse/src/proto/dataplane_path/standard/model.rs"
 PROP = {
     "level": "model_checking",
     "clauses": [
-        "no-panic of PathSolution::path / SolutionEdge::initialize_segment_id on single-edge solutions over segments with ARBITRARY entries "
-        "(zero / duplicate interface ids, arbitrary u32 MTUs, arbitrary peer entries, 0 or 1 peer entries) for edges as produced by "
-        "add_core_segment/add_non_core_segment (shortcut index < len, peer index < peer_entries.len()); Ok(Some(p)) => p is a standard "
-        "path with exactly the traversed hop fields and a non-empty interface list",
         "search depth <= 3 edges (from C04-1: c04_add_edge_step_*), so the BFS holds at most E + E^2 + E^3 solutions",
         "a segment with more than 63 hop fields => StandardPath::wire_valid() is Err => path() is Err; required_size arithmetic total for all length bytes",
         "number_of_hops cannot underflow at its call sites (C04-4)",
     ],
     "not_decided": [
+        "no-panic of the per-solution code [B(L)]: `PathSolution::path`, `initialize_segment_id` on segments with arbitrary entries (empty peer lists, "
+        "zero/duplicate interface ids, out-of-range MTUs `as u16`, `peer` index vs. `peer_entries.len()`): every `expect`/index is justified or reported: "
+        "harnesses c19_path_no_panic_l1/l2/l2_nopeers written; CBMC timed out at 1500 s each (machine load 40-70); not registered. By reading + concrete "
+        "tests: the `expect(\"edges are checked to be not empty\")` is NOT justified (F-zero-ifid, panic in combine()), `as u16` truncates (F-mtu-trunc), "
+        "total hop fields 65..79 are accepted (F-hops64); initialize_segment_id alone is covered by c01_segid_init_l3 (C01 unit)",
         "wall-time, behaviour of the `HashMap` machinery, \"segments that cannot contribute are ignored without affecting the others\" as a set-level statement",
         "add_core_segment/add_non_core_segment skip empty segments: harness c19_empty_segments_are_skipped (MultiGraph::new + HashMap::new under CBMC) "
         "did not finish in 15 min; by reading: both return Err before touching the map when last_ia()/first_ia() is None",
@@ -23,8 +24,7 @@ PROP = {
         "multi-edge solutions in path() (2-3 segments): not run; total hop fields > 64 across segments is finding F-hops64",
     ],
     "assumptions": [
-        "stubs: DpPathFingerprint::from_dp_path and PathFingerprint::try_from_scion_path replaced by constants (SHA-256)",
-        "edges are well-formed w.r.t. their segment (shortcut_idx < len, peer < peer_entries.len(), core: idx 0/no peer): established by add_*_segment (read, not proved: HashMap)",
+        "c19_wire_valid_rejects_long_segment: the over-long hop list is a Vec with symbolic length and uninitialised contents (never read by wire_valid)",
     ],
     "trusted": ["tinyvec"],
     "units": [
@@ -42,11 +42,8 @@ PROP = {
             "harnesses": [
                 H("c19_required_size_total", "P", what="encoded size arithmetic for all (u8,u8,u8)"),
                 H("c19_wire_valid_rejects_long_segment", "B", bound="offending segment length any 64..=2^32 at any position; other segments 1 hop",
-                  what=">63 hop fields in a segment => wire_valid Err"),
-                H("c19_path_no_panic_l1", "B", bound="1 edge, 1 entry, 1 peer entry", what="path() no panic, degenerate single-entry segment", timeout=1500),
-                H("c19_path_no_panic_l2", "B", bound="1 edge, 2 entries, 1 peer entry each", what="path() no panic", timeout=1500),
-                H("c19_path_no_panic_l2_nopeers", "B", bound="1 edge, 2 entries, empty peer lists", what="path() no panic", timeout=1500),
-                H("c19_path_no_panic_l3", "B", tier="thorough", bound="1 edge, 3 entries, 1 peer entry each", what="path() no panic", timeout=3000),
+                  what=">63 hop fields in a segment => wire_valid Err", timeout=2400),
+                # written but NOT registered (CBMC timed out at 1500 s): c19_path_no_panic_l1/_l2/_l2_nopeers/_l3, c19_empty_segments_are_skipped
             ],
         },
         {
